@@ -156,14 +156,14 @@ def run_case(run, c, reply, tbl, formula, Formula, me):
         text = render_flat(s, tbl)
         if c["tag"] is not None:
             text += "@" + repr(c["tagv"]) + c["tag"]
-        f = formula(text, density=c["dens"], natural_density=c["nat"])
+        f = formula(text, density=c["dens"], natural_density=c["nat"], table=tbl)
         cmp_opt("string", reply, f.density)
         inp["string"] = text
         # the tag means the same as the keyword / the attribute
         if c["tag"] is not None and c["dens"] is None and c["nat"] is None:
-            g = formula(render_flat(s, tbl), **({"natural_density": c["tagv"]} if c["tag"] == "n"
-                                                else {"density": c["tagv"]}))
-            h = formula(render_flat(s, tbl))
+            g = formula(render_flat(s, tbl), table=tbl, **({"natural_density": c["tagv"]} if c["tag"] == "n"
+                                                           else {"density": c["tagv"]}))
+            h = formula(render_flat(s, tbl), table=tbl)
             if c["tag"] == "n":
                 h.natural_density = c["tagv"]
             else:
@@ -176,14 +176,14 @@ def run_case(run, c, reply, tbl, formula, Formula, me):
             for body in ("(%s)" % flat, "(30%%wt %s // D2O@1.1)" % flat, "((%s)2H[2]O[18])" % flat,
                          "(25%%vol %s@2.5 // H2O@1n)" % flat):
                 try:
-                    m = formula(body)
+                    m = formula(body, table=tbl)
                 except Exception:  # noqa: this carrier does not accept the composition (e.g. zero mass)
                     continue
                 mk = {pyside.key_of(a): Fraction(n) for a, n in m.atoms.items()}
                 r2 = exact_ratio(mk, tbl, me)
                 if not r2:
                     continue
-                t = formula(body + "@" + repr(c["tagv"]) + c["tag"])
+                t = formula(body + "@" + repr(c["tagv"]) + c["tag"], table=tbl)
                 want = float(c["tagv"] / r2) if c["tag"] == "n" else float(c["tagv"])
                 if not close(t.density, want):
                     viol("density tag on %r does not mean what it means on a plain formula" % body,
@@ -317,15 +317,25 @@ def run_case(run, c, reply, tbl, formula, Formula, me):
             viol("lattice volume != a b c sqrt(1 - cos^2 ... + 2 cos cos cos)", got=v)
 
 
-def run(run: Run) -> int:
-    pt = import_repo()
-    from periodictable.formulas import formula, Formula
-    tbl = pt.elements
-    run.prove(generated=["ElementBase", "Constants", "FormulaConsts"])
-    me = translate.exact(translate.number_text("periodictable/constants.py", "electron_mass"))
+def private_table():
+    """a private table whose element masses were revised (H = 1.25 u, the others by up to 3 %): natural
+    mass / actual mass of every formula over it differs from the public table's"""
+    from periodictable import core, mass, density, covalent_radius
+    core.PRIVATE_TABLES.pop("c12-private", None)
+    t = core.PeriodicTable("c12-private")
+    mass.init(t)
+    density.init(t)
+    covalent_radius.init(t)
+    for el in t:
+        if el.number == 1:
+            el._mass = 1.25
+        elif el.number > 1:
+            el._mass = el._mass * (1 + 0.005 * (el.number % 7))
+    return t
+
+
+def run_table(run: Run, tbl, label, cases, formula, Formula, me):
     radii = {el.number: el.covalent_radius for el in tbl if getattr(el, "covalent_radius", None) is not None}
-    n = 3000 if run.tier == "quick" else 80000
-    cases = [gen_case(run.rng, radii) for _ in range(n)]
     for c in cases:
         if c["kind"] == "replace":
             # the density the operand actually has (a single-atom formula defaults to its atom's)
@@ -341,16 +351,36 @@ def run(run: Run) -> int:
         text = repr(sorted(c.items(), key=lambda kv: kv[0]))
         counts = pyside.flat_counts(c["s"])
         nt = any(k[1] or k[2] for k in counts) or (c["kind"] == "replace" and c["src"] in counts)
-        run.count(key=text, nontrivial=nt, sample=text if len(text) < 300 else None, tag=c["kind"])
+        run.count(key=(label, text), nontrivial=nt, sample=text if len(text) < 300 else None,
+                  tag=c["kind"] if label == "public" else "%s:%s" % (label, c["kind"]))
         if rep.startswith("ERR"):
             run.disagree("driver-rejected", c, rep, "?")
             continue
         try:
-            run_case(run, c, rep, tbl, formula, Formula, me)
+            run_case(run, dict(c, table=label) if label != "public" else c, rep, tbl, formula, Formula, me)
         except Exception as e:  # noqa
             import traceback
-            run.violation("real code raised %s: %s" % (type(e).__name__, e), dict(c), kind=c["kind"],
+            run.violation("real code raised %s: %s" % (type(e).__name__, e), dict(c, table=label), kind=c["kind"],
                           trace=traceback.format_exc()[-400:])
+
+
+def run(run: Run) -> int:
+    pt = import_repo()
+    from periodictable.formulas import formula, Formula
+    tbl = pt.elements
+    run.prove(generated=["ElementBase", "Constants", "FormulaConsts"])
+    me = translate.exact(translate.number_text("periodictable/constants.py", "electron_mass"))
+    radii = {el.number: el.covalent_radius for el in tbl if getattr(el, "covalent_radius", None) is not None}
+    n = 3000 if run.tier == "quick" else 80000
+    cases = [gen_case(run.rng, radii) for _ in range(n)]
+    run_table(run, tbl, "public", cases, formula, Formula, me)
+    # the same relations over a private table with revised element masses (table=T for every string)
+    priv = private_table()
+    try:
+        run_table(run, priv, "private", [gen_case(run.rng, radii) for _ in range(n // 4)], formula, Formula, me)
+    finally:
+        from periodictable import core
+        core.PRIVATE_TABLES.pop("c12-private", None)
     return run.finish(RULE, assumptions=[
         "floating-point rounding compared at 1e-9",
         "libm cos/sqrt and math.radians are modelled by Transc / x*(pi/180)"])
